@@ -3,16 +3,20 @@ package recipe
 import (
 	"bytes"
 	"fmt"
+	"go/scanner"
+	"go/token"
 	"hash/fnv"
 	"os"
 	"path/filepath"
+	"unicode"
+	"unicode/utf8"
 
 	"github.com/dave/jennifer/jen"
 )
 
 // RenderFile renders f with File.Render and, for a deterministic sample of the outputs (chosen by
 // a hash of the bytes), once more through the File's other entry points: GoString (documented to
-// render the File, panicking on error) and Save (documented to render and write the file; half the time over an existing, longer file). All
+// render the File, panicking on error) and Save (documented to render and write the file; mostly over an existing file that resembles the new output, see Stale). All
 // entry points of one File give the same bytes; a disagreement is reported as an error whose text
 // starts with "entry points disagree".
 func RenderFile(f *jen.File) ([]byte, error) {
@@ -49,13 +53,12 @@ func RenderFile(f *jen.File) ([]byte, error) {
 			return nil, fmt.Errorf("entry points disagree: File.Render wrote\n%s\ninto a bytes.Buffer, but into a writer that renders other code inside Write it wrote\n%s", out, bw.buf.Bytes())
 		}
 	}
-	if k%7 == 0 {
+	if (k>>8)%8 == 0 {
 		if dir, err := os.MkdirTemp("", "verif-save-"); err == nil {
 			defer os.RemoveAll(dir)
 			p := filepath.Join(dir, "out.go")
-			if k%2 == 0 {
-				// the target exists and is longer than what is about to be saved (a regenerated file)
-				old := append(append([]byte("// Code generated earlier. DO NOT EDIT.\n"), out...), []byte("\nfunc removedSince() {}\n")...)
+			// the target may exist already: what an earlier run of a generator left there (see Stale)
+			if old, ok := Stale(out, int(k>>12)%StaleVariants); ok {
 				_ = os.WriteFile(p, old, 0o644)
 			}
 			if err := f.Save(p); err != nil {
@@ -68,6 +71,78 @@ func RenderFile(f *jen.File) ([]byte, error) {
 		}
 	}
 	return out, nil
+}
+
+// StaleVariants is the number of variants Stale knows.
+const StaleVariants = 8
+
+// Stale returns what a target file may hold before out is saved over it: the output of an earlier run of
+// the same generator, which resembles the new output closely. ok=false: no file there. Whatever was
+// there, after a successful Save the file holds out.
+func Stale(out []byte, variant int) (old []byte, ok bool) {
+	switch variant {
+	case 1: // longer at both ends
+		return append(append([]byte("// Code generated earlier. DO NOT EDIT.\n"), out...), []byte("\nfunc removedSince() {}\n")...), true
+	case 2: // the new output followed by declarations that have since been dropped
+		return append(append([]byte{}, out...), []byte("\nfunc removedSince() {}\n")...), true
+	case 3: // the same text in other letter case
+		return bytes.Map(func(r rune) rune {
+			switch {
+			case unicode.IsUpper(r):
+				return unicode.ToLower(r)
+			case unicode.IsLower(r):
+				return unicode.ToUpper(r)
+			}
+			return r
+		}, out), !bytes.ContainsRune(out, utf8.RuneError)
+	case 4: // the same code with other comments
+		return otherComments(out), true
+	case 5: // exactly the new output
+		return append([]byte{}, out...), true
+	case 6: // the new output cut short
+		return append([]byte{}, out[:len(out)/2]...), true
+	case 7: // same length, other digits and quoted text
+		return bytes.Map(func(r rune) rune {
+			if r >= '0' && r <= '8' {
+				return r + 1
+			}
+			return r
+		}, out), true
+	}
+	return nil, false
+}
+
+// otherComments rewrites the text of every comment of a Go source (letters and digits become x); a source
+// without comments gets one in front. Sources the scanner cannot read get a comment in front too.
+func otherComments(src []byte) []byte {
+	fset := token.NewFileSet()
+	file := fset.AddFile("", fset.Base(), len(src))
+	var sc scanner.Scanner
+	bad := false
+	sc.Init(file, src, func(token.Position, string) { bad = true }, scanner.ScanComments)
+	out := append([]byte{}, src...)
+	n := 0
+	for {
+		pos, tok, lit := sc.Scan()
+		if tok == token.EOF {
+			break
+		}
+		if tok != token.COMMENT {
+			continue
+		}
+		n++
+		off := file.Offset(pos)
+		for i := 2; i < len(lit) && off+i < len(out); i++ {
+			c := out[off+i]
+			if c >= 'a' && c <= 'z' || c >= 'A' && c <= 'Z' || c >= '0' && c <= '9' {
+				out[off+i] = 'x'
+			}
+		}
+	}
+	if bad || n == 0 || bytes.Equal(out, src) {
+		return append([]byte("// an older header\n"), src...)
+	}
+	return out
 }
 
 type busyWriter struct{ buf bytes.Buffer }
